@@ -129,7 +129,7 @@ Handle(e) ==
     [] e.e = "ann" -> IF e.fd \in DOMAIN tfd THEN tfd' = [tfd EXCEPT ![e.fd].annw = e.w] /\ UNCHANGED <<tcfg, tq, due, got, mustTcp, cseq, xv>> /\ Acc ELSE Skip
     [] e.e = "cbb" -> HCbb(e)
     [] e.e = "ret" -> HRet(e)
-    [] e.e = "crash" -> Stop
+    [] e.e = "crash" -> Rej("c20.crash." \o e.sum)     \* a sanitizer report or abnormal end inside a history of this family
     [] OTHER -> Skip
 
 Verdict == [verdict |-> IF bad /\ why.label # "" THEN "REJ" ELSE "ACC", id |-> hid, line |-> why.line, label |-> why.label]
